@@ -142,6 +142,12 @@ class Env:
                 return args[0].tan()
             if base == "atan2":
                 return jet.Series.atan2(args[0], args[1])
+            if base == "acos":
+                return args[0].acos()
+            if base == "asin":
+                return args[0].asin()
+            if base == "atan":
+                return args[0].atan()
             if base == "abs":
                 return args[0]
             raise jet.Unsupported("call %s" % nm)
@@ -213,6 +219,16 @@ class ErrEnv(Env):
                 else:
                     d = 1.0
                 return r, d * ex + self.u * self.mag(r)
+            if base in ("acos", "asin"):
+                x, ex = args[0]
+                r = x.acos() if base == "acos" else x.asin()
+                # |d/dx| = 1/sqrt(1 - x^2): unbounded as |x| -> 1
+                one_minus = self.mag(jet.Series.const(1, x.N) - x * x)
+                d = 1.0 / max(one_minus, 1e-300) ** 0.5
+                return r, d * (ex + self.u * self.mag(x)) + self.u * self.mag(r)
+            if base == "atan":
+                x, ex = args[0]
+                return x.atan(), ex + self.u * self.mag(x.atan())
             if base == "atan2":
                 (y, ey), (x, ex) = args
                 r = jet.Series.atan2(y, x)
@@ -221,11 +237,130 @@ class ErrEnv(Env):
         raise jet.Unsupported("expression %s" % A.show(e)[:60])
 
 
+
+class NumEnv:
+    """numeric (float) evaluation of AST expressions of one function at a given angle -- used only to locate the boundary of a
+    nested case split inside a closed-form branch and to compare the two alternatives there (rule J4)"""
+
+    def __init__(self, fn_node, num_bindings):
+        self.vars = {}
+        for x in A.walk(fn_node):
+            if x.get("kind") == "VarDecl" and A.kids(x):
+                init = [k for k in A.kids(x) if k.get("kind") not in ("TypeLoc",)]
+                if init:
+                    self.vars[x.get("id")] = (x.get("name"), init[-1])
+        self.bound = dict(num_bindings)
+        self.cache = {}
+
+    def ev(self, e):
+        import math
+        t = e[0]
+        key = A.show(e)
+        if key in self.bound:
+            return self.bound[key]
+        if t == "num":
+            return float(e[1])
+        if t == "bool":
+            return bool(e[1])
+        if t == "ref":
+            name, did = e[1], e[2]
+            if name in self.bound:
+                return self.bound[name]
+            if did in self.cache:
+                return self.cache[did]
+            if did in self.vars:
+                v = self.ev(A.to_expr(self.vars[did][1]))
+                self.cache[did] = v
+                return v
+            if name in ("M_PI",):
+                return math.pi
+            raise jet.Unsupported("free variable %s" % name)
+        if t == "neg":
+            return -self.ev(e[1])
+        if t == "un" and e[1] == "!":
+            return not self.ev(e[2])
+        if t == "ctor" and len(e[2]) == 1:
+            return self.ev(e[2][0])
+        if t == "op":
+            op = e[1]
+            if op == "&&":
+                return bool(self.ev(e[2])) and bool(self.ev(e[3]))
+            if op == "||":
+                return bool(self.ev(e[2])) or bool(self.ev(e[3]))
+            a, b = self.ev(e[2]), self.ev(e[3])
+            if op == "/":
+                if b == 0:
+                    return float("inf") if a > 0 else (float("-inf") if a < 0 else float("nan"))
+                return a / b
+            return {"+": lambda: a + b, "-": lambda: a - b, "*": lambda: a * b, "<": lambda: a < b, "<=": lambda: a <= b,
+                    ">": lambda: a > b, ">=": lambda: a >= b, "==": lambda: a == b, "!=": lambda: a != b}[op]()
+        if t == "call":
+            base = (e[1] if isinstance(e[1], str) else "").split("::")[-1]
+            args = [self.ev(a) for a in e[2]]
+            f = {"sqrt": math.sqrt, "sin": math.sin, "cos": math.cos, "tan": math.tan, "abs": abs, "fabs": abs, "atan2": math.atan2,
+                 "atan": math.atan, "acos": math.acos, "asin": math.asin, "exp": math.exp, "log": math.log}.get(base)
+            if f is None:
+                raise jet.Unsupported("call %s" % e[1])
+            try:
+                return f(*args)
+            except (ValueError, OverflowError):
+                return float("nan")
+        raise jet.Unsupported("expression %s" % A.show(e)[:60])
+
+
+def nested_alternatives(br):
+    """[(condition expr or None, return expression node)] when the branch is a sequence of declarations, `if (c) return e;` statements
+    and a final return; None otherwise"""
+    br = A.strip(br)
+    if br.get("kind") != "CompoundStmt":
+        return None
+    out = []
+    for st in A.kids(br):
+        k = st.get("kind")
+        if k == "DeclStmt":
+            continue
+        if k == "IfStmt":
+            ks = A.kids(st)
+            if len(ks) != 2:
+                return None
+            rets = [x for x in A.walk(ks[1]) if x.get("kind") == "ReturnStmt"]
+            if len(rets) != 1:
+                return None
+            out.append((A.to_expr(ks[0]), A.kids(rets[0])[0]))
+        elif k == "ReturnStmt":
+            out.append((None, A.kids(st)[0]))
+            return out
+        else:
+            return None
+    return None
+
+
+NESTED_AT = {"theta": None, "num_bindings": None, "fn": None, "found": []}
+
+
+def feasible_return(br):
+    """expression node returned by the branch just above the switch; records nested case splits for rule J4"""
+    alts = nested_alternatives(br)
+    if alts is None or len(alts) < 2 or NESTED_AT["theta"] is None:
+        return None
+    NESTED_AT["found"].append((br, alts))
+    ne = NumEnv(NESTED_AT["fn"], NESTED_AT["num_bindings"](NESTED_AT["theta"] * 1.001))
+    for c, r in alts:
+        if c is None or ne.ev(c):
+            return r
+    return None
+
+
 def branch_errors(env, br):
     br = A.strip(br)
     if br.get("kind") == "CompoundStmt":
         rets = [x for x in A.walk(br) if x.get("kind") == "ReturnStmt"]
         expr = A.kids(rets[0])[0]
+        if len(rets) > 1:
+            fr = feasible_return(br)
+            if fr is None:
+                raise jet.Unsupported("branch with %d return statements" % len(rets))
+            expr = fr
     elif br.get("kind") == "ReturnStmt":
         expr = A.kids(br)[0]
     else:
@@ -239,7 +374,7 @@ def has_transc(node):
     for x in A.walk(node):
         if x.get("kind") == "CallExpr":
             nm = (A.callee_name(A.kids(x)[0]) or "").split("::")[-1]
-            if nm in ("sqrt", "sin", "cos", "tan", "atan2", "atan"):
+            if nm in ("sqrt", "sin", "cos", "tan", "atan2", "atan", "acos", "asin"):
                 return True
     return False
 
@@ -250,8 +385,12 @@ def branch_value(env, br):
     if br.get("kind") == "CompoundStmt":
         rets = [x for x in A.walk(br) if x.get("kind") == "ReturnStmt"]
         if len(rets) != 1:
-            raise jet.Unsupported("branch with %d return statements" % len(rets))
-        expr = A.kids(rets[0])[0]
+            fr = feasible_return(br)
+            if fr is None:
+                raise jet.Unsupported("branch with %d return statements" % len(rets))
+            expr = fr
+        else:
+            expr = A.kids(rets[0])[0]
     elif br.get("kind") == "ReturnStmt":
         expr = A.kids(br)[0]
     else:
@@ -315,6 +454,10 @@ def analyse_site(site, weights):
             bindings[k] = (jet.Series.const(1) - jet.Series.var(2)).sqrt()
         else:
             raise jet.Unsupported("unknown site binding %s" % v)
+    # numeric bindings of the same variables at a given angle (for nested case splits inside a branch)
+    num_keys = {k: (1 if v.c == {1: 1} else 2) for k, v in bindings.items() if v.c in ({1: 1}, {2: 1})}
+    NESTED_AT.update({"theta": (thr ** 0.5 if thr else None) if len(num_keys) == len(bindings) else None, "fn": fn, "found": [],
+                      "num_bindings": (lambda th, nk=num_keys: {k: th ** p_ for k, p_ in nk.items()})})
     env = Env(fn, bindings)
     small_vals, small_txt = branch_value(env, small)
     env2 = Env(fn, bindings)
@@ -324,6 +467,7 @@ def analyse_site(site, weights):
         "var": vname, "threshold": thr, "then_small": then_small, "bound": bound_how,
         "small_transc": has_transc(small), "large_transc": has_transc(large),
         "small": small_vals, "large": large_vals, "small_txt": small_txt, "large_txt": large_txt,
+        "nested": list(NESTED_AT["found"]), "num_bindings": NESTED_AT["num_bindings"],
     }
 
 
@@ -400,6 +544,7 @@ def run(rep, pid, idx=None):
 
     rep.rule("J0", "branch selected for small angles is the polynomial branch; other one is closed-form")
     rep.rule("J3", "closed-form branch just above the switch: first-order rounding model (reported only at >= 100x the tolerance)")
+    rep.rule("J4", "a further case split inside a branch of a switch is continuous at the angle where its condition flips", minimum=0)
     FLOAT_TOL = {"C02": 1e-3, "C04": 1e-2}
     rep.rule("J1J2", "sup |closed - series| * weight <= tolerance for every coefficient in scope of %s" % pid)
 
@@ -509,4 +654,80 @@ def run(rep, pid, idx=None):
                         rep.note("%s %s: stated coefficient differs from the closed form's Taylor coefficient "
                                  "(%s vs %s) but worst-case effect %.3g is below tolerance %g -- not a finding"
                                  % (fq, inst, S.short(), C.short(3), eff, tol))
+            check_j4(rep, pid, s, fq, r, entries, theta, tol)
     return rep
+
+
+def check_j4(rep, pid, s, fq, r, entries, theta, tol):
+    """J4: a further case split inside a branch of a switch (e.g. a guard near pi) must be continuous: at the angle where its
+    condition flips, the alternative taken on either side must agree within the tolerance (same weights as J1J2).  The flip is
+    located by scanning the condition over (theta*, pi + 1/2] and bisecting; the two return expressions are evaluated there."""
+    for br, alts in r.get("nested", []):
+        nb = r["num_bindings"]
+        fn = r["fn"]
+
+        def active(th):
+            ne = NumEnv(fn, nb(th))
+            for k, (c, ret) in enumerate(alts):
+                if c is None or ne.ev(c):
+                    return k
+            return None
+
+        def values(th, k):
+            ne = NumEnv(fn, nb(th))
+            e = A.to_expr(alts[k][1])
+            items = e[1] if e[0] == "init" else (e[2] if (e[0] == "ctor" and len(e[2]) > 1) else [e])
+            return [ne.ev(x) for x in items]
+        lo, hi = theta * 1.001, math.pi + 0.5
+        n = 4000
+        grid = [lo + (hi - lo) * i / n for i in range(n + 1)] + [math.pi - 10.0 ** (-k_) for k_ in range(2, 9)] + [math.pi + 10.0 ** (-k_) for k_ in range(2, 9)]
+        grid.sort()
+        flips = []
+        try:
+            prev = active(grid[0])
+            for a_, b_ in zip(grid, grid[1:]):
+                cur = active(b_)
+                if cur != prev:
+                    x0, x1, k0 = a_, b_, prev
+                    for _ in range(80):
+                        mid = 0.5 * (x0 + x1)
+                        if active(mid) == k0:
+                            x0 = mid
+                        else:
+                            x1 = mid
+                    flips.append((x0, x1, k0, cur))
+                prev = cur
+        except jet.Unsupported as ex:
+            rep.broke("J4: cannot evaluate the nested case split in %s: %s" % (fq, ex))
+            continue
+        f_, l_ = A.loc(br)
+        if not flips:
+            rep.instance("J4", fq, "nested split never taken on (theta*, pi+1/2]", ok=True, sample={"file": fe.rel(f_), "line": l_})
+            continue
+        for x0, x1, k0, k1 in flips:
+            if k0 is None or k1 is None:
+                rep.broke("J4: %s has an angle range without a return value" % fq)
+                continue
+            try:
+                v0, v1 = values(x0, k0), values(x1, k1)
+            except jet.Unsupported as ex:
+                rep.broke("J4: cannot evaluate the alternatives in %s: %s" % (fq, ex))
+                continue
+            # within 1e-5 of pi the log round trip is only required to 1e-7
+            tl = max(tol, 1e-7) if (pid == "C02" and abs(x0 - math.pi) < 1e-5) else tol
+            worst = None
+            for i, w in entries:
+                if i >= len(v0) or i >= len(v1):
+                    continue
+                d = abs(v0[i] - v1[i])
+                eff = d * wfun(w)(x0) if d == d else float("inf")
+                if worst is None or eff > worst[0]:
+                    worst = (eff, i, w, v0[i], v1[i])
+            ok = worst is None or worst[0] <= 2 * tl
+            rep.instance("J4", fq, "split at %.6g" % x0, ok=ok, sample={"file": fe.rel(f_), "line": l_, "angle": x0, "jump_effect": worst[0] if worst else 0.0, "tolerance": tl})
+            if not ok:
+                eff, i, w, a0, a1 = worst
+                rep.violation(Finding("J4", fq, "coeff%d nested split" % i,
+                                      "the case split `%s` inside the closed-form branch is discontinuous: at angle %.9g (pi - %.3g) the value jumps from %.9g to %.9g; "
+                                      "relative effect %.3g (weight %s*theta^%s) exceeds tolerance %g of %s"
+                                      % (A.show(alts[min(k0, k1)][0])[:80] if alts[min(k0, k1)][0] else "else", x0, math.pi - x0, a0, a1, eff, w["c"], w.get("p", 0), tl, pid), f_, l_))
